@@ -21,6 +21,7 @@ import ASV.Proofs.OrfCross
 import ASV.Proofs.OrfGapsComplete
 import ASV.Proofs.OrfComplement
 import ASV.Proofs.OrfTrim
+import ASV.Proofs.OrfRecord
 namespace ASV.C15
 open ASV ASV.Orf
 
@@ -395,6 +396,45 @@ theorem all_orfs_complete_linear (rec : Seq) (start «end» minLen pad : Int) (g
   have := this genes start a hm
   omega
 
+/-! ### 5b. `find_all_orfs` on a record: the genes come from the record's own lookup -/
+
+/-- the gap search in the words of the property ("up to the allowed overlap"): any stretch inside
+    a returned area shares at most `pad` bases with every gene handed to the search — also with
+    genes shorter than twice the padding -/
+theorem intergenic_sound_overlap (start «end» minLen pad : Int) (genes : List Gene) (hpad : 0 ≤ pad)
+    (hsorted : sortedByStart genes) (a : Int × Int)
+    (ha : a ∈ findIntergenic start «end» genes minLen pad) (g : Gene) (hg : g ∈ genes)
+    (x y : Int) (hx : a.1 ≤ x) (hy : y ≤ a.2) : overlapSize g x y ≤ pad :=
+  findIntergenic_overlap start «end» minLen pad genes hpad hsorted a ha g hg x y hx hy
+
+/-- `find_all_orfs(record, area)` with the gene lists obtained the way the code obtains them —
+    `record.get_cds_features()` for the whole record, `get_cds_features_within_location(area.location,
+    with_overlapping=True)` (C08's model, `Lookup.within`) for an area — returns no ORF sharing more than
+    `max_overlap` bases with ANY gene of the record: nested genes, genes starting before the area and
+    reaching into it, whatever lies between them in the record's order.  `genes` is the record's gene
+    list (in `Feature.__lt__` order, well-formed: invariants of every record, C08 `genes_stay_sorted`),
+    no gene running over the origin (several exons and introns are fine: the bound holds exon by exon);
+    the area is absent or a single stretch inside the record. -/
+theorem all_orfs_avoid_every_gene (rec : Seq) (genes : List Lookup.Gene) (hs : Lookup.Sorted genes)
+    (hok : Lookup.GenesOK genes) (hsimple : AllLinear genes) (area : Option Part) (minLen pad : Int)
+    (hL : 0 < rec.length) (hpad : 0 ≤ pad) (hmin : 0 ≤ minLen)
+    (harea : ∀ p, area = some p → 0 ≤ p.lo ∧ p.lo < p.hi ∧ p.hi ≤ rec.length)
+    (locs : List Loc) (h : findAllOrfsRec rec genes (area.map Loc.simple) minLen pad = some locs) :
+    ∀ l ∈ locs, locOverlapOk (genes.map (·.loc)) pad l = true :=
+  findAllOrfsRec_overlap_linear rec genes hs hok hsimple area minLen pad hL hpad hmin harea locs h
+
+/-- the same for an origin-crossing area `join{[a, L), [0, b)}` with `0 < b ≤ a < L`: each part's genes
+    come from the lookup for that part, and every part of every ORF found (also of an ORF running over
+    the origin) shares at most `max_overlap` bases with any gene of the record -/
+theorem all_orfs_avoid_every_gene_crossing (rec : Seq) (genes : List Lookup.Gene) (hs : Lookup.Sorted genes)
+    (hok : Lookup.GenesOK genes) (hsimple : AllLinear genes) (a b : Int) (s1 s2 : Strand) (minLen pad : Int)
+    (hpad : 0 ≤ pad) (hmin : 0 ≤ minLen) (hb : 0 < b) (hba : b ≤ a) (haL : a < rec.length)
+    (hcross : Lookup.crosses (.compound [⟨a, rec.length, s1⟩, ⟨0, b, s2⟩]) = true)
+    (locs : List Loc)
+    (h : findAllOrfsRec rec genes (some (.compound [⟨a, rec.length, s1⟩, ⟨0, b, s2⟩])) minLen pad = some locs) :
+    ∀ l ∈ locs, locOverlapOk (genes.map (·.loc)) pad l = true :=
+  findAllOrfsRec_overlap_crossing rec genes hs hok hsimple a b s1 s2 minLen pad hpad hmin hb hba haL hcross locs h
+
 /-! ### 6. `get_trimmed_orf` (tree with fixes/D57: new location by C09's exon walk) -/
 
 /-- the start chosen is a start codon of the (not upper-cased) ORF, lies in the search range
@@ -478,6 +518,15 @@ example : findIntergenic 0 200 [⟨95, 114⟩] 0 10 = [(0, 105), (104, 200)] := 
 /-- trimming an origin-crossing ORF (D57): ring of 30, ORF = [20,30) + [0,8), latest start at 6 -/
 example : trimmedOrf "ATGAAAGTGCCCGGGTAA".toList (.compound [⟨20, 30, .fwd⟩, ⟨0, 8, .fwd⟩]) none 0 none
     = .found (.compound [⟨26, 30, .fwd⟩, ⟨0, 8, .fwd⟩]) := by decide
+/-- a long gene [0,20) reaching into the area [8,30) with a short gene [2,5) nested in it that ends before
+    the area (the layout on which a look-back that stops at the first earlier gene ending before the
+    area loses the long gene): the lookup finds the long gene, the ORF at [10,19) inside it is not
+    reported, the one at [21,30) in the gap is -/
+example : (Lookup.within [⟨0, .simple ⟨0, 20, .fwd⟩, []⟩, ⟨1, .simple ⟨2, 5, .rev⟩, []⟩]
+    (.simple ⟨8, 30, .fwd⟩) true).map geneOf = [⟨0, 20⟩] := by decide
+example : findAllOrfsRec "CCCCCCCCCCATGAAATAACCATGCCCTAA".toList
+    [⟨0, .simple ⟨0, 20, .fwd⟩, []⟩, ⟨1, .simple ⟨2, 5, .rev⟩, []⟩] (some (.simple ⟨8, 30, .fwd⟩)) 6 0
+    = some [.simple ⟨21, 30, .fwd⟩] := by decide
 example : sortedByStart [⟨0, 110⟩, ⟨50, 105⟩] := (sortedByStartB_iff _).1 (by decide)
 
 end ASV.C15
